@@ -28,6 +28,44 @@ class OpaqueList:
         raise Unsupported("read of havocked list %s (.%s): give the loop a list abstraction" % (self.name, name))
 
 
+class OpaqueDict:
+    """a dict about which nothing is known after a havoc: stores are accepted, lookups return an unknown value"""
+
+    def __init__(self, name):
+        self.name = name
+
+    def pyvc_setitem(self, I, k, v):
+        pass
+
+    def _unknown(self):
+        E = core.CUR
+        if E.choose(2) == 0:
+            return None
+        n = E.fresh_int(self.name + ".vlen")
+        E.add(n >= 0)
+        return BBase(E.fresh_name(self.name + ".v"), SymInt(n))
+
+    def pyvc_getitem(self, I, k):
+        v = self._unknown()
+        if v is None:
+            raise PyExc("KeyError", "unknown key")
+        return v
+
+    def pyvc_contains(self, I, k):
+        return core.CUR.choose(2) == 0
+
+    def pyvc_getattr(self, I, name):
+        from .interp import Builtin
+        if name == "get":
+            return Builtin("dict.get", lambda I, k, d=None: (lambda v: d if v is None else v)(self._unknown()))
+        if name == "keys":
+            return Builtin("dict.keys", lambda I: self)
+        raise Unsupported("method %s on a havocked dict" % name)
+
+    def pyvc_havoc(self, name):
+        return self
+
+
 def _targets(body_nodes, extra_targets=()):
     names, attrs, mutated = set(), set(), set()
 
@@ -99,6 +137,8 @@ def _havoc_value(cur, name, spec):
         return BBase(E.fresh_name(name), SymInt(n))
     if isinstance(cur, list):
         return OpaqueList(name)
+    if isinstance(cur, dict):
+        return OpaqueDict(name)
     if isinstance(cur, OpaqueList):
         return cur
     if cur is None or isinstance(cur, (Obj, tuple, str, float)):
